@@ -12,7 +12,7 @@ from .c10 import walk_cache
 
 LEVEL = "model_checking"
 RULE = ("cache_create from_envelope: every envelope hierarchy of depth<=3 (4 payload sets per node, 0-2 dependencies, names "
-        "repeated across levels, contents distinct per position) x 6x6 (omit, dependency) pattern pairs, compared with a "
+        "repeated across levels, contents distinct per position) x (omit, dependency) pattern pairs (complete 5x5 basic grid + prefix/alternation patterns), compared with a "
         "reference model of the selection (multiset of (path, name, bytes)): each payload is found exactly once, in the "
         "output tree at the same path or in the cache under its name, byte-identical; manifest and wrapper spans at "
         "every level byte-identical; refusals (duplicate URI, dependency pattern on a non-envelope) leave no output. "
@@ -24,7 +24,7 @@ BOUNDS = {"quick": "555 trees (second dependency fixed to a leaf) x 25 pattern p
           "thorough": "same trees x 25 pattern pairs x eb in {1,16}; extract histories depth 3"}
 
 PAYSETS = [[], ["#a"], ["#a", "#b"], ["cache://x"], ["#e", "#a"], ["#ab", "#a"], ["#A", "#a"]]      # "#e" is a zero-length payload
-PATTERNS = [None, "nomatch", ".*", "#a.*", "#dep.*", "#a"]        # "#a" must not select "#ab" (fullmatch, not prefix)
+PATTERNS = [None, "nomatch", ".*", "#a.*", "#dep.*", "#a", "#a|#b", "#b|#a"]    # "#a" / "#a|#b" must not select "#ab" (fullmatch of the whole alternation)
 
 
 def trees(depth):
@@ -117,6 +117,8 @@ def cache_cases(tier):
     for ti in range(len(ts)):
         for o in range(len(PATTERNS)):
             for d in range(len(PATTERNS)):
+                if (o >= 5 and d not in (0, 4)) or (d >= 5 and o != 0):
+                    continue        # the special patterns are paired with {none, #dep.*} / none only; the basic 5x5 grid is complete
                 for eb in ((16,) if tier == "quick" else (16, 1)):
                     out.append({"t": ti, "omit": o, "dep": d, "eb": eb, "i": i})
                     i += 1
